@@ -1,6 +1,6 @@
 (* Proofs about Model/Auth.v.  Nothing is assumed about the four crypto functions. *)
 From Coq Require Import ZifyBool.
-From Sekai Require Import Base.Prelude Model.Auth Model.C02Check.
+From Sekai Require Import Base.Prelude Model.Auth Model.C02Check Model.C02Chain Gen.C02AnteChain.
 
 (* ------------------------------------------------------------------ association list *)
 Lemma get_set_same : forall s a x y, get_acc s a = Some y -> get_acc (set_acc s a x) a = Some x.
@@ -1092,3 +1092,173 @@ Proof.
     + exfalso. eapply N; eauto.
 Qed.
 End Chain.
+
+(* ------------------------------------------------------------------------------------------
+   Histories: arbitrary interleavings of accepted / rejected transactions of any number of accounts
+   and of account creations.  Per account the sequence counts exactly the accepted transactions that
+   name it as signer; a transaction is never accepted at two positions of a history. *)
+Section Histories.
+Variable verify : pkey -> signdoc -> sigv -> bool.
+Variable recover : digest -> sigv -> option addr.
+Variable addr_of_pk : pkey -> addr.
+Variable eth_sender : Z -> option addr.
+Notation ante := (Auth.ante verify recover addr_of_pk eth_sender).
+Notation step := (Auth.step verify recover addr_of_pk eth_sender).
+Notation run := (Auth.run verify recover addr_of_pk eth_sender).
+
+Definition acc_room (s : state) (n : Z) : Prop :=
+  forall a acc, get_acc s a = Some acc -> 0 <= a_seq acc /\ a_seq acc + n < two64.
+
+Lemma get_acc_app_none : forall s r a, get_acc s a = None -> get_acc (s ++ r) a = get_acc r a.
+Proof.
+  induction s as [|[b z] s IH]; intros r a H; simpl in *; auto.
+  destruct (b =? a); [discriminate|auto].
+Qed.
+
+Lemma step_room : forall v c o s n, 0 <= n -> n < two64 -> acc_room s (1 + n) -> acc_room (step v c s o) n.
+Proof.
+  intros v c [t|b num] s n N0 N1 R a acc' G'; simpl in G'.
+  - destruct (ante v c s t) as [s'|e|p] eqn:H.
+    + pose proof (ante_effect_seq _ _ _ _ _ _ _ _ _ H a) as E. unfold sn in E. rewrite G' in E.
+      destruct (get_acc s a) as [acc|] eqn:G; [|destruct (mem_addr a (signers t)); discriminate].
+      destruct (R a acc G) as [P B]. destruct (mem_addr a (signers t)); simpl in E; inversion E as [[E1 E2]].
+      * rewrite wrap64_small in E1 by lia. lia.
+      * lia.
+    + destruct (R a acc' G'). lia.
+    + destruct (R a acc' G'). lia.
+  - destruct (get_acc s b) eqn:Gb.
+    + destruct (R a acc' G'). lia.
+    + destruct (get_acc s a) as [acc|] eqn:G.
+      * rewrite (get_acc_app_some _ _ _ _ G) in G'. inversion G'; subst. destruct (R a acc' G). lia.
+      * rewrite (get_acc_app_none _ _ _ G) in G'. simpl in G'. destruct (b =? a); [|discriminate].
+        inversion G'; subst. simpl. lia.
+Qed.
+
+Lemma run_room : forall v c ops s n, 0 <= n -> Z.of_nat (List.length ops) + n < two64 ->
+  acc_room s (Z.of_nat (List.length ops) + n) -> acc_room (run v c s ops) n.
+Proof.
+  intros v c ops. induction ops as [|o ops IH]; intros s n N0 N1 R.
+  - simpl in *. exact R.
+  - change (run v c s (o :: ops)) with (run v c (step v c s o) ops).
+    change (List.length (o :: ops)) with (S (List.length ops)) in *. rewrite Nat2Z.inj_succ in *.
+    apply IH; try lia. apply step_room; try lia.
+    replace (1 + (Z.of_nat (List.length ops) + n)) with (Z.succ (Z.of_nat (List.length ops)) + n) by lia. exact R.
+Qed.
+
+Lemma replay_rejected_room : forall v c s t s' ops,
+  acc_room s (1 + Z.of_nat (List.length ops)) -> ante v c s t = Ok s' ->
+  is_ok (ante v c (run v c s' ops) t) = false.
+Proof.
+  intros v c s t s' ops R H.
+  destruct (ante_ok_first _ _ _ _ _ _ _ _ _ H) as (a0 & sg & x0 & sl & acc & SG & SL & G & Q).
+  destruct (R _ _ G) as [P B].
+  pose proof (ante_effect_seq _ _ _ _ _ _ _ _ _ H a0) as E. rewrite SG in E. simpl in E. rewrite Z.eqb_refl in E. simpl in E.
+  unfold sn in E. rewrite G in E. simpl in E.
+  destruct (get_acc s' a0) as [acc1|] eqn:G1; [|discriminate]. simpl in E. inversion E as [[E1 E2]].
+  rewrite wrap64_small in E1 by lia.
+  destruct (run_seq_mono verify recover addr_of_pk eth_sender v c ops s' a0 acc1 G1) as (acc2 & G2 & B2); try lia.
+  destruct (ante v c (run v c s' ops) t) as [s3|e|p] eqn:H3; auto.
+  destruct (ante_ok_first _ _ _ _ _ _ _ _ _ H3) as (a0' & sg' & x0' & sl' & acc3 & SG' & SL' & G3 & Q3).
+  rewrite SG in SG'. rewrite SL in SL'. inversion SG'; inversion SL'; subst a0' x0'.
+  rewrite G2 in G3. inversion G3; subst acc3. lia.
+Qed.
+
+Lemma run_app : forall v c s l m, run v c s (l ++ m) = run v c (run v c s l) m.
+Proof. intros. unfold Auth.run. apply fold_left_app. Qed.
+
+(* an accepted transaction is never accepted again later in the same history -- whatever else the history
+   contains (transactions of any accounts, accepted or rejected, in any interleaving; new accounts) *)
+Theorem never_accepted_twice : forall v c s pre t mid,
+  acc_room s (Z.of_nat (List.length pre) + (1 + Z.of_nat (List.length mid))) ->
+  Z.of_nat (List.length pre) + (1 + Z.of_nat (List.length mid)) < two64 ->
+  is_ok (ante v c (run v c s pre) t) = true ->
+  is_ok (ante v c (run v c s (pre ++ OpTx t :: mid)) t) = false.
+Proof.
+  intros v c s pre t mid R B H.
+  destruct (ante v c (run v c s pre) t) as [s1|e|p] eqn:A; try discriminate.
+  rewrite run_app. change (run v c (run v c s pre) (OpTx t :: mid)) with (run v c (step v c (run v c s pre) (OpTx t)) mid).
+  unfold Auth.step at 1. rewrite A.
+  apply (replay_rejected_room v c (run v c s pre) t s1 mid); auto.
+  apply run_room; try lia. exact R.
+Qed.
+
+(* the number of accepted transactions of a history (started in s) that name account a as signer *)
+Fixpoint accepted_for (v : variant) (c : ctxt) (s : state) (ops : list op) (a : addr) : Z :=
+  match ops with
+  | [] => 0
+  | o :: r =>
+      (match o with
+       | OpTx t => if is_ok (ante v c s t) && mem_addr a (signers t) then 1 else 0
+       | OpNew _ _ => 0
+       end) + accepted_for v c (step v c s o) r a
+  end.
+
+(* per account the sequence number is EXACTLY the count of accepted transactions naming it: strictly
+   increasing on every such transaction, untouched by everything else *)
+Theorem sequence_counts_accepted : forall v c ops s a acc,
+  get_acc s a = Some acc -> acc_room s (Z.of_nat (List.length ops)) ->
+  exists acc', get_acc (run v c s ops) a = Some acc' /\ a_seq acc' = a_seq acc + accepted_for v c s ops a
+               /\ a_num acc' = a_num acc.
+Proof.
+  intros v c ops. induction ops as [|o ops IH]; intros s a acc G R.
+  - exists acc. simpl. repeat split; auto. lia.
+  - change (run v c s (o :: ops)) with (run v c (step v c s o) ops).
+    change (List.length (o :: ops)) with (S (List.length ops)) in R. rewrite Nat2Z.inj_succ in R.
+    assert (L : 0 <= Z.of_nat (List.length ops)) by apply Nat2Z.is_nonneg.
+    destruct (R a acc G) as [P B].
+    assert (R' : acc_room (step v c s o) (Z.of_nat (List.length ops))).
+    { apply step_room; try lia. replace (1 + Z.of_nat (List.length ops)) with (Z.succ (Z.of_nat (List.length ops))) by lia. exact R. }
+    assert (S1 : exists acc1, get_acc (step v c s o) a = Some acc1 /\ a_num acc1 = a_num acc /\
+                 a_seq acc1 = a_seq acc + match o with OpTx t => if is_ok (ante v c s t) && mem_addr a (signers t) then 1 else 0 | OpNew _ _ => 0 end).
+    { destruct o as [t|b num]; simpl.
+      - destruct (ante v c s t) as [s'|e|p] eqn:H; simpl; try (exists acc; repeat split; auto; lia).
+        pose proof (ante_effect_seq _ _ _ _ _ _ _ _ _ H a) as E. unfold sn in E. rewrite G in E.
+        destruct (get_acc s' a) as [acc1|]; [|destruct (mem_addr a (signers t)); discriminate].
+        exists acc1. destruct (mem_addr a (signers t)); simpl in E; inversion E as [[E1 E2]]; repeat split; auto; try lia.
+        rewrite wrap64_small in E1 by lia. lia.
+      - destruct (get_acc s b); [exists acc; repeat split; auto; lia|].
+        exists acc. repeat split; auto; try lia. apply get_acc_app_some; auto. }
+    destruct S1 as (acc1 & G1 & N1 & Q1).
+    destruct (IH (step v c s o) a acc1 G1 R') as (acc' & G' & Q' & N').
+    exists acc'. split; auto. split; [|congruence]. cbn [accepted_for]. lia.
+Qed.
+End Histories.
+
+(* ------------------------------------------------------------------------------------------ statements used verbatim by Properties/C02.v *)
+Lemma accept_authorised_repaired : forall verify recover addr_of_pk eth_sender c s t s',
+  Auth.ante verify recover addr_of_pk eth_sender repaired c s t = Ok s' ->
+  Forall2 (Authorised verify recover addr_of_pk eth_sender c s t) (signers t) (t_slots t).
+Proof. intros until s'. apply accept_authorised. reflexivity. Qed.
+
+Lemma whole_chain_continues : chain_ok c02_chain c02_returns c02_gen_errors = true.
+Proof. vm_compute. reflexivity. Qed.
+Lemma audited_code_is_pinned : audited_code_pinned c02_fingerprints c02_account_writers = true.
+Proof. vm_compute. reflexivity. Qed.
+
+Lemma ex_nonvacuous_key : forall v,
+  sound_for v e_honest = true /\
+  Auth.ante e_verify e_recover w_addr_of_pk w_eth_sender v w_ctx w_state e_honest = Ok [(100, mkAcc None 0 5); (200, mkAcc (Some (Secp 200)) 4 6)].
+Proof. intros v. split; [destruct v as [[] [] [] []]; reflexivity|apply ex_honest_accepted]. Qed.
+Lemma ex_nonvacuous_raw_eth :
+  sound_for repaired e_raw_honest = true /\
+  Auth.ante e_verify e_recover w_addr_of_pk w_eth_sender repaired w_ctx w_state e_raw_honest = Ok [(100, mkAcc (Some (Secp 1)) 1 5); (200, mkAcc (Some (Secp 200)) 3 6)].
+Proof. split; [reflexivity|exact ex_raw_honest_accepted]. Qed.
+
+(* the spec checker accepts every run of the (repaired-variant) model: ALL histories *)
+Definition c02_checker_accepts_model_runs := chk_sound.
+
+(* non-vacuity of the history theorems: a three-account history with accepted and rejected transactions *)
+Definition h_ops : list op := [OpTx e_honest; OpTx w_forged; OpNew 300 9; OpTx e_honest; OpTx e_eip712].
+Lemma ex_history :
+  acc_room w_state (Z.of_nat (List.length h_ops)) /\
+  accepted_for e_verify e_recover w_addr_of_pk w_eth_sender repaired w_ctx w_state h_ops 200 = 1 /\
+  accepted_for e_verify e_recover w_addr_of_pk w_eth_sender repaired w_ctx w_state h_ops 100 = 1 /\
+  Auth.run e_verify e_recover w_addr_of_pk w_eth_sender repaired w_ctx w_state h_ops
+    = [(100, mkAcc (Some (Secp 1)) 1 5); (200, mkAcc (Some (Secp 200)) 4 6); (300, mkAcc None 0 9)].
+Proof.
+  split.
+  - intros a acc G. unfold w_state in G. cbn [get_acc] in G.
+    destruct (100 =? a); [inversion G; subst; split; [cbn; lia|vm_compute; reflexivity]|].
+    destruct (200 =? a); [inversion G; subst; split; [cbn; lia|vm_compute; reflexivity]|discriminate].
+  - repeat split; vm_compute; reflexivity.
+Qed.
